@@ -15,3 +15,4 @@ def run(ck):
     loadbalance.spec_hash_by(ck)
     loadbalance.spec_lb_connect(ck)
     loadbalance.spec_lb_verify(ck)
+    ck.post_filter = lambda o: not o.label.startswith('C18/')
